@@ -46,6 +46,7 @@ import (
 	"unsafe"
 
 	sem2 "github.com/megaease/easegress/pkg/util/sem"
+	"golang.org/x/sync/semaphore"
 	"pgregory.net/rapid"
 )
 
@@ -66,9 +67,15 @@ func vfC17WaitBound() time.Duration {
 // again: one that receives from (sends to) a nil channel or selects without cases. That is a
 // completion signal in the negative - "this capacity change will never be applied" - and not a
 // timing assumption: such a goroutine stays blocked however long anybody waits. Returns its stack.
-func vfC17BlockedForGood() string {
+//
+// Such a goroutine outlives its case. It is attributed to the case that asks only if it has not been
+// seen before in this process (vfC17StuckSeen, by goroutine id) and - when the case knows the address
+// of its own weighted semaphore (match) - if that address is the receiver in the blocked frame.
+func vfC17BlockedForGood(match string) string {
 	buf := make([]byte, 1<<20)
 	buf = buf[:runtime.Stack(buf, true)]
+	vfC17StuckMu.Lock()
+	defer vfC17StuckMu.Unlock()
 	for _, g := range strings.Split(string(buf), "\n\n") {
 		nl := strings.IndexByte(g, '\n')
 		if nl < 0 {
@@ -78,11 +85,48 @@ func vfC17BlockedForGood() string {
 		if !strings.Contains(head, "(nil chan)") && !strings.Contains(head, "select (no cases)") {
 			continue
 		}
-		if strings.Contains(g, "/pkg/util/sem.") || strings.Contains(g, "/pkg/util/limitlistener.(") {
-			return g
+		if !strings.Contains(g, "/pkg/util/sem.") && !strings.Contains(g, "/pkg/util/limitlistener.(") {
+			continue
 		}
+		id := head
+		if i := strings.IndexByte(head, '['); i > 0 {
+			id = head[:i]
+		}
+		if vfC17StuckSeen[id] {
+			continue
+		}
+		if match != "" && !strings.Contains(g, match) {
+			continue // some other case's semaphore (that case ended before it looked)
+		}
+		vfC17StuckSeen[id] = true
+		return g
 	}
 	return ""
+}
+
+var (
+	vfC17StuckMu   sync.Mutex
+	vfC17StuckSeen = map[string]bool{}
+)
+
+// blockedForGood: vfC17BlockedForGood restricted to this case's semaphore where its address is known.
+func (r *vfC17Rig) blockedForGood() string {
+	if r.sem != nil && r.semMatch == "" {
+		v := reflect.ValueOf(r.sem).Elem()
+		want := reflect.TypeOf((*semaphore.Weighted)(nil))
+		for i := 0; i < v.NumField(); i++ {
+			if f := v.Field(i); f.Type() == want && !f.IsNil() {
+				r.semMatch = fmt.Sprintf("semaphore.(*Weighted).Acquire(0x%x,", f.Pointer())
+			}
+		}
+		if r.semMatch == "" {
+			r.semMatch = "-" // not found: any not yet attributed goroutine counts
+		}
+	}
+	if r.semMatch == "" || r.semMatch == "-" {
+		return vfC17BlockedForGood("")
+	}
+	return vfC17BlockedForGood(r.semMatch)
 }
 
 // vfC17StuckPoller decides when a bounded wait looks for goroutines that are blocked for good:
@@ -132,7 +176,7 @@ func (r *vfC17Rig) awaitOrStuck(done <-chan struct{}) bool {
 		case <-time.After(wait):
 		}
 		if p.due() {
-			if g := vfC17BlockedForGood(); g != "" {
+			if g := r.blockedForGood(); g != "" {
 				r.mu.Lock()
 				r.stuck = g
 				r.mu.Unlock()
@@ -284,6 +328,7 @@ type vfC17Viol struct{ key, msg string }
 
 type vfC17Change struct {
 	n, old int
+	peakHeld int // upper bound of the permits held at any time since the change was issued
 	done   chan struct{}
 	seen   bool // watcher has observed done
 }
@@ -300,6 +345,10 @@ type vfC17Rig struct {
 	innerOpen  int // accepted and the Close of the WRAPPED connection has not returned yet (what is really open)
 	slowCloseSaturated int // slow inner closes started while open == cap with a dial pending
 	stuck      string // stack of a semaphore goroutine that is blocked for good ("" = none seen)
+	cap0       int    // the cap the listener was created with
+	semMatch   string // how this case's weighted semaphore shows in a stack dump
+	closing    int    // Close calls of the harness that have not returned yet
+	firstLowering *vfC17Change
 	open       map[int]net.Conn
 	closed     map[int]net.Conn
 	dialed     int
@@ -345,7 +394,17 @@ func (r *vfC17Rig) pending() int { return r.dialed - r.acceptedN - r.withdrawn }
 func (r *vfC17Rig) acceptLoop() {
 	defer close(r.acc)
 	for {
-		c, err := r.ll.Accept()
+		var c net.Conn
+		var err error
+		panicked := true
+		func() {
+			defer r.panicToViolation("Accept")
+			c, err = r.ll.Accept()
+			panicked = false
+		}()
+		if panicked {
+			return
+		}
 		if err != nil {
 			if ne, ok := err.(interface{ Temporary() bool }); ok && ne.Temporary() {
 				r.mu.Lock()
@@ -373,6 +432,9 @@ func (r *vfC17Rig) onAccept(c net.Conn) {
 	r.acceptedN++
 	r.open[inner.id] = c
 	r.innerOpen++
+	if fl := r.firstLowering; fl != nil && r.innerOpen+r.closing+1 > fl.peakHeld {
+		fl.peakHeld = r.innerOpen + r.closing + 1
+	}
 	if r.inflight == 0 && r.innerOpen > r.stableCap && r.counter <= r.stableCap {
 		r.violate("new-connection-accepted-while-a-closing-connection-is-still-open", "accept of #%d makes %d connections open (the close of the underlying connection has not returned for %d of them), cap %d, no capacity change in flight", inner.id, r.innerOpen, r.innerOpen-r.counter, r.stableCap)
 	}
@@ -412,7 +474,10 @@ func (r *vfC17Rig) setMax(n int) {
 	if n > r.maxCaps {
 		r.maxCaps = n
 	}
-	ch := &vfC17Change{n: n, old: r.lastIssued}
+	ch := &vfC17Change{n: n, old: r.lastIssued, peakHeld: r.innerOpen + r.closing + 1} // +1: the acceptor holds a permit while it waits for a dial
+	if n < r.lastIssued && r.firstLowering == nil {
+		r.firstLowering = ch
+	}
 	r.lastIssued = n
 	r.changes = append(r.changes, ch)
 	r.logf("setmax %d->%d (open>=%d, inflight=%d)", ch.old, n, r.counter, r.inflight)
@@ -480,9 +545,43 @@ func (r *vfC17Rig) closeConn(id int) {
 	r.counter--
 	r.logf("close#%d", id)
 	inner := r.inner[id]
+	r.closing++
 	r.mu.Unlock()
 	atomic.StoreInt32(&inner.byHarness, 1)
+	defer func() {
+		r.mu.Lock()
+		r.closing--
+		r.mu.Unlock()
+	}()
+	defer r.panicToViolation("Close of an accepted connection")
 	c.Close()
+}
+
+// vfC17KeyHugeCreateShrink: second face of the same defect of the unchanged tree (negative parking in
+// NewSem): the first lowering of a cap the listener was CREATED with (> 20M) asks the weighted
+// semaphore for more than its size as soon as more permits are held than the new cap allows.
+const vfC17KeyHugeCreateShrink = "listener-created-with-maxConnections-above-20M: a shrink below the current usage is never applied"
+
+// vfC17KeyHugeCreatePanic: genuine defect of the unchanged tree (see proposed_known.jsonl).
+const vfC17KeyHugeCreatePanic = "listener-created-with-maxConnections-above-20M: closing a connection panics (semaphore: released more than held)"
+
+// panicToViolation (deferred around calls into the listener made on harness goroutines): a panic
+// coming out of Accept/Close is a finding, not the end of the test process.
+func (r *vfC17Rig) panicToViolation(where string) {
+	p := recover()
+	if p == nil {
+		return
+	}
+	text := fmt.Sprint(p)
+	r.mu.Lock()
+	key := "panic in " + where + ": " + text
+	if r.cap0 > 20000000 && strings.Contains(text, "released more than held") {
+		key = vfC17KeyHugeCreatePanic
+	}
+	r.logf("PANIC in %s: %s", where, text)
+	r.violate(key, "%s panicked: %s (listener created with cap %d)", where, text, r.cap0)
+	r.cond.Broadcast()
+	r.mu.Unlock()
 }
 
 func (r *vfC17Rig) openIDs() []int {
@@ -517,7 +616,7 @@ func (r *vfC17Rig) waitFor(pred func() bool) bool {
 			return false
 		}
 		if p.due() {
-			if g := vfC17BlockedForGood(); g != "" {
+			if g := r.blockedForGood(); g != "" {
 				r.stuck = g
 				return false
 			}
@@ -604,7 +703,7 @@ func (r *vfC17Rig) behaviouralCapacityProbe() (bool, string) {
 	p.due()
 	for runtime.NumGoroutine() > r.baseG+1 { // +1: the acceptor loop
 		if p.due() {
-			if g := vfC17BlockedForGood(); g != "" {
+			if g := r.blockedForGood(); g != "" {
 				r.mu.Lock()
 				r.stuck = g
 				r.mu.Unlock()
@@ -680,7 +779,7 @@ func (r *vfC17Rig) quiesce() (bool, string) {
 		p.due()
 		for runtime.NumGoroutine() > r.baseG {
 			if p.due() {
-				if g := vfC17BlockedForGood(); g != "" {
+				if g := r.blockedForGood(); g != "" {
 					r.mu.Lock()
 					r.stuck = g
 					r.mu.Unlock()
@@ -852,16 +951,21 @@ func TestVerifC17Listener(t *testing.T) {
 	}
 	rapid.Check(t, func(rt *rapid.T) {
 		cap0 := rapid.IntRange(1, 4).Draw(rt, "cap0")
+		dialBase := cap0
+		// a listener may be CREATED with any uint32 cap ("4294967295 = no limit"), not only be raised to it
+		if rapid.IntRange(0, 6).Draw(rt, "hugeCap0") == 0 {
+			cap0 = rapid.SampledFrom([]int{4294967295, 4294967295, 2147483648, 20000001, 20000000}).Draw(rt, "hugeCap0Value")
+		}
 		nsteps := rapid.IntRange(3, 12).Draw(rt, "nsteps")
 		steps := make([]vfC17Step, nsteps)
 		for i := range steps {
-			steps[i] = vfC17GenStep(rt, i, cap0)
+			steps[i] = vfC17GenStep(rt, i, dialBase)
 		}
 		public := rapid.IntRange(0, 3).Draw(rt, "viaSetMaxConnection") == 0
 		script := fmt.Sprintf("cap0=%d viaSetMaxConnection=%v %v", cap0, public, steps)
 
 		r := &vfC17Rig{ln: vfC17NewLn(), open: map[int]net.Conn{}, closed: map[int]net.Conn{}, acc: make(chan struct{}),
-			stableCap: cap0, lastIssued: cap0, maxCaps: cap0, public: public, baseG: runtime.NumGoroutine()}
+			stableCap: cap0, lastIssued: cap0, maxCaps: cap0, public: public, baseG: runtime.NumGoroutine(), cap0: cap0}
 		r.cond = sync.NewCond(&r.mu)
 		r.ll = NewLimitListener(r.ln, uint32(cap0))
 		r.sem = vfC17SemOf(r.ll)
@@ -953,7 +1057,10 @@ func TestVerifC17Listener(t *testing.T) {
 				c := r.closed[id]
 				r.logf("close-again#%d", id)
 				r.mu.Unlock()
-				c.Close()
+				func() {
+					defer r.panicToViolation("second Close of a connection")
+					c.Close()
+				}()
 				dbl = true
 			}
 			wg.Wait()
@@ -997,6 +1104,12 @@ func TestVerifC17Listener(t *testing.T) {
 
 		// statistics
 		vf.Class(fmt.Sprintf("cap0=%d", cap0))
+		if cap0 > 20000000 {
+			vf.Class("listener-created-with-a-cap-above-20M")
+			if hugeThenLowered > 0 {
+				vf.Class("listener-created-with-a-cap-above-20M-then-lowered-at-run-time")
+			}
+		}
 		if public {
 			vf.Class("changes-via-SetMaxConnection(no done channel)")
 		} else {
@@ -1052,7 +1165,11 @@ func TestVerifC17Listener(t *testing.T) {
 			}
 		}
 		if stuck != "" {
-			if vf.Violation(rt, "capacity-change-can-never-be-applied", "a run-time change of the cap (last configured: %d) will never be in force: the goroutine applying it is blocked for good, and every later change queues behind it; the listener keeps admitting connections under an older, larger cap%s\nblocked goroutine:\n%s\nscript: %s\nhistory: %s", finalCap, map[bool]string{true: " [" + why + "]", false: ""}[expired], stuck, script, hist) {
+			key := "capacity-change-can-never-be-applied"
+			if fl := r.firstLowering; cap0 > 20000000 && fl != nil && fl.peakHeld > fl.n {
+				key = vfC17KeyHugeCreateShrink // up to fl.peakHeld permits were held when the cap went down to fl.n
+			}
+			if vf.Violation(rt, key, "a run-time change of the cap (last configured: %d) will never be in force: the goroutine applying it is blocked for good, and every later change queues behind it; the listener keeps admitting connections under an older, larger cap%s\nblocked goroutine:\n%s\nscript: %s\nhistory: %s", finalCap, map[bool]string{true: " [" + why + "]", false: ""}[expired], stuck, script, hist) {
 				return
 			}
 		}
